@@ -355,7 +355,7 @@ def const(node, env=None):
         return getattr(v, node.func.attr)(*[a.value for a in node.args])     # str.encode / bytes.decode only
     if isinstance(node, ast.Call) and isinstance(node.func, ast.Attribute) and not node.keywords and node.func.attr in (
             'intersection', 'difference', 'union', 'symmetric_difference', 'isdisjoint', 'issubset', 'issuperset', 'count',
-            'bit_length', 'startswith', 'endswith'):
+            'bit_length', 'startswith', 'endswith', 'index', 'find'):
         v = const(node.func.value, env)
         if isinstance(v, (set, frozenset, bytes, bytearray, tuple, list, str, int, range)):
             return getattr(v, node.func.attr)(*[const(a, env) for a in node.args])     # pure methods of builtin values only
@@ -404,6 +404,83 @@ def fold_block(stmts, env):
         else:
             raise NotConst(norm(st)[:40])
     return ('fall', None)
+
+
+def fold_lenient(stmts, env, seeds=(), stop=None, visit=None):
+    """Fold what can be folded of a statement list: assignments whose value folds update env, others make their targets unknown
+    (names in `seeds` keep their value: they stand for what the device returned); an `if` with a foldable test follows that branch,
+    otherwise both branches only invalidate what they assign.  Stops in front of the first statement for which stop(st) is true.
+    Returns True when stopped there."""
+    def targets_of(st):
+        out = []
+        for t in (st.targets if isinstance(st, ast.Assign) else [st.target] if isinstance(st, (ast.AugAssign, ast.AnnAssign)) else []):
+            for x in ast.walk(t):
+                if isinstance(x, ast.Name):
+                    out.append(x.id)
+                elif isinstance(x, ast.Attribute):
+                    out.append(norm(x))
+        return out
+
+    def invalidate(body):
+        for st in body:
+            for x in ast.walk(st):
+                if isinstance(x, (ast.Assign, ast.AugAssign, ast.AnnAssign)):
+                    for n_ in targets_of(x):
+                        if n_ not in seeds:
+                            env.pop(n_, None)
+    for st in stmts:
+        if stop is not None and stop(st):
+            return True
+        if visit is not None:
+            visit(st, env)
+        if isinstance(st, ast.Assign) and len(st.targets) == 1:
+            try:
+                v = const(st.value, env)
+            except Exception:
+                invalidate([st])
+                continue
+            t = st.targets[0]
+            if isinstance(t, ast.Name):
+                if t.id not in seeds:
+                    env[t.id] = v
+            elif isinstance(t, ast.Subscript) and isinstance(t.value, ast.Name) and isinstance(env.get(t.value.id), (bytearray, list)):
+                try:
+                    buf = type(env[t.value.id])(env[t.value.id])
+                    if isinstance(t.slice, ast.Slice):
+                        lo = const(t.slice.lower, env) if t.slice.lower else None
+                        hi = const(t.slice.upper, env) if t.slice.upper else None
+                        buf[lo:hi] = v
+                    else:
+                        buf[const(t.slice, env)] = v
+                    env[t.value.id] = buf
+                except Exception:
+                    if t.value.id not in seeds:
+                        env.pop(t.value.id, None)
+            elif isinstance(t, ast.Attribute):
+                env[norm(t)] = v
+            elif isinstance(t, ast.Tuple) and all(isinstance(e, ast.Name) for e in t.elts):
+                try:
+                    vs = list(v)
+                except TypeError:
+                    invalidate([st])
+                    continue
+                for e, vv in zip(t.elts, vs):
+                    env[e.id] = vv
+            else:
+                invalidate([st])
+        elif isinstance(st, ast.If):
+            try:
+                c = const(st.test, env)
+            except Exception:
+                invalidate(st.body + st.orelse)
+                continue
+            if fold_lenient(st.body if c else st.orelse, env, seeds, stop, visit):
+                return True
+        elif isinstance(st, (ast.For, ast.While, ast.Try, ast.With)):
+            invalidate([st])
+        elif isinstance(st, ast.AugAssign):
+            invalidate([st])
+    return False
 
 
 def fold_func(prog, f, args, depth=0):
